@@ -33,7 +33,9 @@ TRUSTED_COMMON = [
 
 
 class Task:
-    def __init__(self, prop, name, fn, kind, tier, params, budget_s, functions, scope, canary, max_paths, note):
+    def __init__(self, prop, name, fn, kind, tier, params, budget_s, functions, scope, canary, max_paths, note,
+                 shard=None):
+        self.shard = shard
         self.prop, self.name, self.fn, self.kind, self.tier = prop, name, fn, kind, tier
         self.params, self.budget_s, self.functions = params or {}, budget_s, functions or []
         self.scope, self.canary, self.max_paths, self.note = scope, canary, max_paths, note
@@ -46,7 +48,7 @@ REGISTRY: dict[str, list[Task]] = {}
 
 
 def contract(prop, name=None, kind="sym", tier="quick", params=None, budget_s=300, functions=None,
-             scope="unbounded", canary=False, max_paths=None, note=""):
+             scope="unbounded", canary=False, max_paths=None, note="", shards=1, shard_depth=6):
     """Register a contract program (kind='sym'), a bounded enumeration (kind='enum') or a static analysis
     (kind='static').  `params` may be a list of dicts: one task per dict."""
     def deco(fn):
@@ -55,8 +57,10 @@ def contract(prop, name=None, kind="sym", tier="quick", params=None, budget_s=30
             nm = name or fn.__name__
             if p and isinstance(params, list):
                 nm += "[" + ",".join(f"{k}={v}" for k, v in p.items()) + "]"
-            REGISTRY.setdefault(prop, []).append(
-                Task(prop, nm, fn, kind, tier, p, budget_s, functions, scope, canary, max_paths, note))
+            for j in range(shards):
+                REGISTRY.setdefault(prop, []).append(
+                    Task(prop, nm + (f"#{j}/{shards}" if shards > 1 else ""), fn, kind, tier, p, budget_s, functions,
+                         scope, canary, max_paths, note, shard=(j, shards, shard_depth) if shards > 1 else None))
         return fn
     return deco
 
@@ -92,7 +96,8 @@ def _run_task(idx_prop):
     try:
         if task.kind == "sym":
             from . import symx
-            ex = symx.Explorer(task.program(), name=task.name, budget_s=task.budget_s, max_paths=task.max_paths)
+            ex = symx.Explorer(task.program(), name=task.name, budget_s=task.budget_s, max_paths=task.max_paths,
+                               shard=task.shard)
             rep = ex.run().to_dict()
             rep["kind"] = "sym"
         else:
@@ -182,9 +187,12 @@ def run_property(prop, tier="quick", seed=0, level="proof", only=None, jobs=None
             if r.get("budget_hit"):
                 undecided.append(dict(task=t.name, reason="exploration budget exhausted"))
             if not r.get("crashed") and not r.get("errors"):
-                if r.get("paths_completed", 0) == 0:
+                base = t.name.split("#")[0]
+                group_completed = sum(by_name[x.name].get("paths_completed", 0) for x in tasks
+                                      if x.name.split("#")[0] == base and x.name in by_name)
+                if group_completed == 0:
                     errors.append(dict(task=t.name, errors=[dict(kind="Vacuous", msg="no path reached the end of the contract program (contradictory precondition?)")]))
-                if not r.get("obligations"):
+                if not r.get("obligations") and not t.shard:
                     errors.append(dict(task=t.name, errors=[dict(kind="Vacuous", msg="zero obligations generated")]))
             nv = 0
             for cname, ob in (r.get("obligations") or {}).items():
@@ -253,7 +261,8 @@ def run_property(prop, tier="quick", seed=0, level="proof", only=None, jobs=None
         printed.add(key)
         print(f"KNOWN-FINDING: property={prop} {k.get('what')} [{tname}::{cname}]")
     viol_lines = []
-    for v in violations:
+    MAXV = int(os.environ.get('VF_MAX_VIOLATION_LINES', '8'))
+    for v in violations[:MAXV]:
         fname = (v["task"] + "__" + v["clause"]).replace("/", "_").replace(" ", "_").replace("[", "_").replace("]", "_").replace("=", "-").replace(",", "_")
         path = os.path.join(OUT, "replays", prop, fname[:150] + ".json")
         w = v["witnesses"][0]
@@ -286,6 +295,8 @@ def run_property(prop, tier="quick", seed=0, level="proof", only=None, jobs=None
         viol_lines.append(f"VIOLATION property={prop} replay={path}{suffix}")
     for ln in viol_lines:
         print(ln)
+    if len(violations) > MAXV:
+        print(f'... and {len(violations) - MAXV} more violated obligations of {prop} (listed in the evidence file)')
 
     wall = time.time() - t_start
     trusted = list(TRUSTED_COMMON) + list(extra_trusted)
@@ -300,6 +311,7 @@ def run_property(prop, tier="quick", seed=0, level="proof", only=None, jobs=None
         bounded_legs=bounded_legs,
         known_findings=[dict(what=k.get("what"), task=t, clause=c) for k, t, c, _ in known_hits],
         checker_errors=errors,
+        violated=[f"{v['task']}::{v['clause']}" for v in violations],
     )
     if bounded_legs:
         cov.update(evaluations=bounded_evals, distinct_nontrivial=bounded_nontrivial,
